@@ -223,3 +223,29 @@ def run(F, R, tier):
                             R.check(ok, "C07.R3", R.key("C07.R3", task["id"], "captured-context"), "%s:%s" % (task["file"], s["line"]),
                                     "the context captured by the service closure is (a clone of) the TcpConnectionContext::new result",
                                     "captured context origins %s" % sorted(map(str, org)))
+
+    # ------------------------------------------------------------------ R4 what can make the consume step fail
+    # get_audit_entry keeps the looked-up identity when remove_audit fails (it only logs), so every failure source of the removal is a
+    # way to leave a record behind for the next connection on that port. The accepted ones: the eBPF object / map is gone (the lookup would
+    # have failed as well) or the kernel refuses the delete. Lock contention, time-outs, retries-exhausted etc. are not.
+    from lib import contracts
+    R.rule("C07.R4", "failure sources of remove_audit: eBPF object/map missing or the kernel's delete error - nothing else")
+    srcs, seen4 = contracts.failure_sources(F, AP + "redirector::remove_audit", lambda c: c.startswith(AP + "redirector::"))
+    got = {(f.replace(AP, "").replace("::{closure#0}", ""), s) for f, s in srcs}
+    want = {("redirector::remove_audit", "local Err(Bpf(NullBpfObject))"),
+            ("redirector::linux::BpfObject::remove_audit_map_entry", "local Err(Bpf(GetBpfMap))"),
+            ("redirector::linux::BpfObject::remove_audit_map_entry", "local Err(Bpf(LoadBpfMapHashMap))"),
+            ("redirector::linux::BpfObject::remove_audit_map_entry", "aya::maps::HashMap::remove")}
+    for f_ in seen4:
+        R.touched(f_)
+    R.check(got == want, "C07.R4", "C07.R4:remove_audit:failure-sources", "proxy_agent/src/redirector.rs",
+            "remove_audit fails only through %s" % sorted(s for _, s in want),
+            "remove_audit has new / other failure sources %s (missing %s): each is a way to accept a connection without consuming its record"
+            % (sorted(got - want), sorted(want - got)))
+    # the mutex around the eBPF object is taken with a blocking lock() on the consume path
+    ra = F.body_of(AP + "redirector::remove_audit")
+    if ra:
+        Br = mir.Body(ra, F)
+        locks = [q.base_name(c[1]) for c in Br.calls if c[1] != mir.POLL and "Mutex" in q.base_name(c[1] or "")]
+        R.check(locks == ["std::sync::Mutex::lock"], "C07.R4", "C07.R4:remove_audit:blocking-lock", "%s:%s" % (ra["file"], ra["line"]),
+                "remove_audit takes the eBPF object's mutex with lock() (waits, never gives up)", "mutex operations in remove_audit: %s" % locks)
